@@ -1533,6 +1533,14 @@ class Executor:
                 if fn == "any":
                     return VBool(z3.Exists(ks, z3.And(rng, a.select(ks))))
                 return VBool(z3.ForAll(ks, z3.Implies(rng, a.select(ks))))
+            if fn == "sum" and isinstance(args[0], VRef) and st.heap[args[0].cell].et == "b" and len(args) == 1 and not kwargs:
+                a = st.heap[args[0].cell]
+                cnt = z3.Int(fresh_name("count"))
+                ks = [z3.Int(fresh_name("k")) for _ in range(a.ndim)]
+                rng = z3.And(*[z3.And(k >= 0, k < sh) for k, sh in zip(ks, a.shape)])
+                st.assume(z3.And(cnt >= 0, (cnt > 0) == z3.Exists(ks, z3.And(rng, a.select(ks)))))
+                self.notes.append("assumed: np.sum(bool array) >= 0 and > 0 exactly when some element is true")
+                return VInt(cnt)
             if fn in ("nanmean", "nansum", "nanmin", "nanmax", "nanstd", "nanvar", "mean", "sum", "min", "max", "std", "var") \
                     and isinstance(args[0], VRef) and len(args) == 1 and not kwargs:
                 self.notes.append("assumed: np.%s is a function of the array it is given" % fn)
@@ -1960,6 +1968,14 @@ class Executor:
             raise Unsupported("assignment target", node)
 
     def store(self, target, v, st, node, spec):
+        if isinstance(target.value, ast.Subscript) and not isinstance(target.slice, (ast.Slice, ast.Tuple)) and \
+                not isinstance(target.value.slice, (ast.Slice, ast.Tuple)):
+            # a[i][j] = v  ==  a[i, j] = v for a 2-D array
+            flat = ast.Subscript(value=target.value.value, slice=ast.Tuple(elts=[target.value.slice, target.slice], ctx=ast.Load()),
+                                 ctx=ast.Store())
+            ast.copy_location(flat, target)
+            ast.fix_missing_locations(flat)
+            return self.store(flat, v, st, node, spec)
         base = self.ev(target.value, st, spec)
         if not isinstance(base, VRef):
             raise Unsupported("store into %r" % (base,), node)
@@ -2392,6 +2408,12 @@ class Executor:
             h.pc.append(in_range(iv))
         for inv in ls.inv:
             h.pc.append(self.spec_bool(inv, h))
+        for j, (fact, why) in enumerate(getattr(ls, "assume", ())):
+            g = self.spec_bool(fact, h)
+            h.pc.append(g)
+            o = self.oblige(h, "assumed", "%s.assume%d" % (tag, j), z3.BoolVal(True), s, desc=fact)
+            if o is not None:
+                o.assumed = why
         exits = []
         # normal exit state
         x = h.fork()
